@@ -10,7 +10,8 @@ TARGETS = {
     "revert-d425be7": ["C12"], "revert-c0cea22": ["C02"], "revert-221b768": ["C02"], "revert-716f3b8": ["C18"], "revert-e1d1b05": ["C03"],
     "revert-13cbc3c": ["C06", "C04"], "revert-a5a64b9": ["C14", "C04"], "revert-f763528": ["C09", "C10", "C04"], "revert-1e8145f": ["C09"], "revert-4629932": ["C09"],
     "revert-47ccb3d-global-extractors": ["C13"], "revert-a74582e-casefold": ["C13"], "revert-8633444": ["C15"], "revert-3f213ac": ["C14"], "revert-6039c69": ["C17"],
-    "revert-19133e7": ["C13", "C04"], "revert-4c3914e": ["C17"],
+    "revert-19133e7": ["C13", "C04"], "revert-4c3914e": ["C17"], "revert-b690870": ["C16", "C06"], "revert-268c40b": ["C03"], "revert-7014b83": ["C19"], "revert-15c731a": ["C09", "C04"],
+    "C05-2B": ["C05", "C07"], "C07-2B": ["C07"], "C10-2B": ["C10"], "C09-2B": ["C09"],
     "C13-A-fold-order": ["C13"], "mine-C01-noescape": ["C01"], "mine-C01-page5": ["C01"], "mine-C20-noplus": ["C20"], "mine-C20-underscore1": ["C20"],
     "C04-A": ["C04", "C09"], "C04-B": ["C04", "C07"], "C05-A": ["C05", "C07"], "C05-B": ["C05", "C07"], "C06-A": ["C06", "C16"], "C06-B": ["C06", "C16"],
     "C05-2A": ["C05", "C17"], "C16-2A": ["C16", "C15"], "C18-2B": ["C18", "C17"], "C02-2B": ["C02", "C12"], "C12-2A": ["C12", "C02"], "C03-2A": ["C03"], "C19-2A": ["C19"],
